@@ -14,7 +14,85 @@ The module defines
 """
 from __future__ import annotations
 
+import itertools
+
 from ..ref import c17_layout as L
+
+
+RECORDS = ("rec", "trec", "trecW", "ttrec")
+
+
+def ctor_forms(n):
+    """every way the check constructs a record of n fields with its constructor:
+    ("pk", k, perm): the first k fields positional, the others as keywords in the order `perm`
+                     (k = 0: all keywords, every permutation; k = n: all positional)
+    ("copy", perm):  copy constructor applied to an all-keyword instance built in order `perm`"""
+    out = []
+    for k in range(0, n + 1):
+        for perm in itertools.permutations(range(k, n)):
+            out.append(("pk", k, perm))
+    for perm in (tuple(range(n)), tuple(reversed(range(n)))):
+        if ("copy", perm) not in out:
+            out.append(("copy", perm))
+    return out
+
+
+def form_name(form):
+    if form[0] == "pk":
+        return f"p{form[1]}k{''.join(map(str, form[2]))}"
+    return f"copy{''.join(map(str, form[1]))}"
+
+
+def n_forms(T):
+    """number of construction forms needed so that every record node of T is built in each of its forms"""
+    k = T[0]
+    best = 0
+    if k in RECORDS:
+        best = len(ctor_forms(len(T[1])))
+        for f in T[1]:
+            best = max(best, n_forms(f))
+        if k == "ttrec":
+            for a in T[2]:
+                best = max(best, n_forms(a))
+    elif k in ("carr", "sarr", "ser"):
+        best = n_forms(T[1])
+    return best
+
+
+def first_record_arity(T):
+    k = T[0]
+    if k in RECORDS:
+        return len(T[1])
+    if k in ("carr", "sarr", "ser"):
+        return first_record_arity(T[1])
+    return 0
+
+
+def reduced_form_indices(T):
+    """the four most different construction forms (besides form 0 = keywords in declaration order):
+    all positional, all keywords reversed, one positional + the rest reversed, copy of a reversed-keyword instance"""
+    n = first_record_arity(T)
+    if n == 0:
+        return []
+    forms = ctor_forms(n)
+    rev = tuple(reversed(range(n)))
+    want = [("pk", n, ()), ("pk", 0, rev), ("pk", 1, tuple(reversed(range(1, n)))), ("copy", rev)]
+    out = []
+    for f in want:
+        j = forms.index(f)
+        if j != 0 and j not in out:
+            out.append(j)
+    return sorted(out)
+
+
+def apply_form(te, args, form):
+    """constructor call text for type expression te, argument texts args (declared order)"""
+    if form[0] == "pk":
+        k, perm = form[1], form[2]
+        parts = list(args[:k]) + [f"f{j}={args[j]}" for j in perm]
+        return f"{te}({', '.join(parts)})"
+    inner = ", ".join(f"f{j}={args[j]}" for j in form[1])
+    return f"{te}({te}({inner}))"
 
 HEADER = '''from __future__ import annotations
 import cohdl
@@ -58,6 +136,7 @@ class Renderer:
         self.names = {}         # node -> class name
         self.n = 0
         self.bases = []         # non-empty base classes of inherited records (serialisable on their own)
+        self.base_of = {}       # record node -> [(base type expression, number of fields)]
 
     # ---- type expressions ------------------------------------------------------------------
     def _new(self, prefix):
@@ -102,9 +181,17 @@ class Renderer:
         if k == "rec":
             return self._rec(T)
         if k == "trec":
-            return f"{self._trec(T[1])}[{T[2]}]"
+            split = T[3] if len(T) > 3 else None
+            name = self._trec(T[1], split)
+            self._note_bases(T, name, f"[{T[2]}]", split)
+            return f"{name}[{T[2]}]"
         if k == "trecW":
             return f"{self._trec(T[1])}[WArg]"
+        if k == "ttrec":
+            name = self._ttrec(T)
+            arg = "[" + ", ".join(self.texpr(a) for a in T[2]) + "]"
+            self._note_bases(T, name, arg, T[3])
+            return name + arg
         if k == "bf":
             return self._bf(T)
         if k == "ser":
@@ -152,22 +239,62 @@ class Renderer:
                 lines.append(f"    f{idx}: {fexprs[idx]}")
                 idx += 1
             self.defs.append("\n".join(lines))
-            if lvl < len(split) - 1 and idx > 0:
-                self.bases.append(cname)
             base = cname
         self.names[T] = name
+        self._note_bases(T, name, "", split)
         return name
 
-    def _trec(self, fields):
-        key = ("trecdef", fields)
+    def _note_bases(self, T, name, arg, split):
+        """remember the non-empty proper base classes of record node T: (type expression, number of fields)"""
+        if not split or len(split) < 2 or T in self.base_of:
+            return
+        out, acc = [], 0
+        for lvl, cnt in enumerate(split[:-1]):
+            acc += cnt
+            if acc > 0:
+                out.append((f"{name}_b{lvl}{arg}", acc))
+        self.base_of[T] = out
+        for e, _ in out:
+            if e not in self.bases:
+                self.bases.append(e)
+
+    def _chain(self, name, root_base, fexprs, split):
+        """class definitions for a (templated) record whose declarations inherit from each other"""
+        split = split or (len(fexprs),)
+        idx = 0
+        base = root_base
+        for lvl, cnt in enumerate(split):
+            cname = name if lvl == len(split) - 1 else f"{name}_b{lvl}"
+            lines = [f"class {cname}({base}):"]
+            if cnt == 0:
+                lines.append("    pass")
+            for _ in range(cnt):
+                lines.append(f"    f{idx}: {fexprs[idx]}")
+                idx += 1
+            self.defs.append("\n".join(lines))
+            base = cname
+
+    def _trec(self, fields, split=None):
+        if split is not None and len(split) == 1:
+            split = None
+        key = ("trecdef", fields, split)
         if key in self.names:
             return self.names[key]
         fexprs = [self.texpr(f) for f in fields]
         name = self._new("TR")
-        lines = [f"class {name}(std.Record[WArg]):"]
-        for i, fe in enumerate(fexprs):
-            lines.append(f"    f{i}: {fe}")
-        self.defs.append("\n".join(lines))
+        self._chain(name, "std.Record[WArg]", fexprs, split)
+        self.names[key] = name
+        return name
+
+    def _ttrec(self, T):
+        key = ("ttrecdef", T[1], len(T[2]), T[3])
+        if key in self.names:
+            return self.names[key]
+        arg = self._new("TA")
+        self.defs.append("\n".join([f"@std.TemplateArg", f"class {arg}:"] + [f"    t{i}: type" for i in range(len(T[2]))]))
+        fexprs = [f"{arg}.t{f[1]}" if f[0] == "tp" else self.texpr(f) for f in T[1]]
+        name = self._new("TT")
+        self._chain(name, f"std.Record[{arg}]", fexprs, T[3])
         self.names[key] = name
         return name
 
@@ -235,9 +362,10 @@ class Renderer:
         return stmts, exprs
 
     # ---- construction from part values ------------------------------------------------------
-    def build_expr(self, T):
+    def build_expr(self, T, form_index=0):
         """expression over list P (part values, order of ref.parts) that constructs a value of T with the
-        documented constructors (never with from_bits)"""
+        documented constructors (never with from_bits).  Every record node with n fields is constructed in form
+        ctor_forms(n)[form_index % len(ctor_forms(n))]; form 0 = all keywords in declaration order."""
         counter = [0]
 
         def nxt():
@@ -257,6 +385,10 @@ class Renderer:
             if k == "s":
                 return f"Signed[{w}](_sg(P[{i}], {w}))"
             raise ValueError(k)
+
+        def record(te, args):
+            forms = ctor_forms(len(args))
+            return apply_form(te, args, forms[form_index % len(forms)])
 
         def walk(T, W):
             k = T[0]
@@ -282,12 +414,12 @@ class Renderer:
                 elems = [walk(T[1], W) for _ in range(T[2])]
                 return f"{te}([{', '.join(elems)}], _qualifier_=std.Value)"
             if k == "rec":
-                args = [f"f{j}=" + walk(f, W) for j, f in enumerate(T[1])]
-                return f"{te}({', '.join(args)})"
+                return record(te, [walk(f, W) for f in T[1]])
             if k in ("trec", "trecW"):
                 w = T[2] if k == "trec" else W
-                args = [f"f{j}=" + walk(f, w) for j, f in enumerate(T[1])]
-                return f"{te}({', '.join(args)})"
+                return record(te, [walk(f, w) for f in T[1]])
+            if k == "ttrec":
+                return record(te, [walk(T[2][f[1]] if f[0] == "tp" else f, W) for f in T[1]])
             if k == "bf":
                 i = nxt()
                 return f"{te}(BitVector[{T[1]}](_bs(P[{i}], {T[1]})))"
@@ -296,6 +428,40 @@ class Renderer:
             raise ValueError(T)
 
         return walk(T, None)
+
+    def cb_expr(self, T, form_index, src="self.inp"):
+        """run-time construction: record nodes reachable from the root through records are built with their
+        constructor (form as in build_expr); every other sub-tree is taken from its documented slice of `src` with
+        from_bits.  to_bits of the result must reproduce `src`."""
+
+        def record(te, args):
+            forms = ctor_forms(len(args))
+            return apply_form(te, args, forms[form_index % len(forms)])
+
+        def walk(T, W, lo):
+            k = T[0]
+            R = L.resolve(T, W)
+            w = L.width(R)
+            if k in RECORDS:
+                te = self._texpr_w(T, W)
+                if k == "trec":
+                    W2 = T[2]
+                elif k == "trecW":
+                    W2 = W
+                else:
+                    W2 = W
+                args, off = [], lo
+                for f in T[1]:
+                    if f[0] == "tp":
+                        f = T[2][f[1]]
+                    fw = L.width(L.resolve(f, W2))
+                    args.append(walk(f, W2, off))
+                    off += fw
+                return record(te, args)
+            te = self._texpr_w(T, W)
+            return f"std.from_bits[{te}]({src}[{lo + w - 1}:{lo}])"
+
+        return walk(T, None, 0)
 
     def _texpr_w(self, T, W):
         """type expression with the template argument substituted by the concrete W"""
@@ -306,6 +472,8 @@ class Renderer:
             return self.texpr(L.resolve(T, W))
         if k == "trecW":
             return f"{self._trec(T[1])}[{W}]"
+        if k == "tp":
+            raise ValueError("unresolved type parameter")
         if k in ("carr", "sarr"):
             pre = "Array" if k == "carr" else "std.Array"
             return f"{pre}[{self._texpr_w(T[1], W)}, {T[2]}]"
@@ -348,7 +516,7 @@ class Renderer:
         return lines
 
     # ---- whole module ----------------------------------------------------------------------
-    def module(self, qualifiers=("value",), ct_patterns=(), with_bw=True):
+    def module(self, qualifiers=("value",), ct_patterns=(), with_bw=True, with_forms=True, reduced_forms=False):
         T = self.T
         w = L.width(T)
         vs = L.views(T)
@@ -374,6 +542,47 @@ class Renderer:
         body.append("def build(P):")
         body.append(f"    return {build}")
         body.append("")
+
+        # every construction form of the record nodes
+        root_is_record = T[0] in RECORDS
+        nf = n_forms(T) if with_forms else 0
+        self.nforms = nf
+        fidx = [0] + (reduced_form_indices(T) if reduced_forms else list(range(1, nf))) if nf else []
+        self.form_indices = fidx
+        body.append(f"NFORMS = {nf}")
+        body.append(f"FORM_INDICES = {fidx!r}")
+        for j in fidx[1:]:
+            body.append(f"def build_f{j}(P):")
+            body.append(f"    return {self.build_expr(T, j)}")
+            body.append("")
+        if root_is_record and with_forms:
+            forms = ctor_forms(len(T[1]))
+            body.append("FORM_NAMES = " + repr([form_name(forms[j % len(forms)]) for j in range(nf)]))
+        else:
+            body.append("FORM_NAMES = " + repr([f"f{j}" for j in range(nf)]))
+        body.append("")
+
+        # base classes of the top-level record: the low bits of a serialised value are a serialised base
+        top_bases = self.base_of.get(T, []) if root_is_record else []
+        RT_ = L.resolve(T)
+        body.append("TOP_BASES = [" + ", ".join(f"({e}, {n})" for e, n in top_bases) + "]")
+        for bi, (e, n) in enumerate(top_bases):
+            bst, bex = self.observe(("rec", RT_[1][:n], (n,)), "obj", f"_b{bi}e")
+            body.append(f"def observe_base{bi}(obj):")
+            for st in bst:
+                body.append("    " + st)
+            body.append("    return [" + ", ".join(bex) + "]")
+            body.append("")
+
+        # the identical record without templates (same inheritance split)
+        if T[0] in ("trec", "ttrec") and with_forms:
+            twin = L.resolve(T)
+            body.append(f"TWIN = {self.texpr(twin)}")
+            body.append("def build_twin(P):")
+            body.append(f"    return {self.build_expr(twin)}")
+            body.append("")
+        else:
+            body.append("TWIN = None")
 
         def from_bits_expr(arg, qual):
             if is_ser:
@@ -406,6 +615,24 @@ class Renderer:
                 inner = self.texpr(T[1])
                 body.append(f"            x2 = std.from_bits[{inner}](self.inp)")
                 body.append("            self.ser2 <<= TYPE(x2).bits()")
+            body.append("")
+
+        # run-time construction in every form
+        if root_is_record and with_forms:
+            body.append("class CB(cohdl.Entity):")
+            body.append(f"    inp = Port.input(BitVector[{w}])")
+            for j in fidx:
+                body.append(f"    cb{j} = Port.output(BitVector[{w}])")
+            body.append(f"    cbnull = Port.output(BitVector[{w}])")
+            body.append(f"    cbfull = Port.output(BitVector[{w}])")
+            body.append("")
+            body.append("    def architecture(self):")
+            body.append("        @std.concurrent")
+            body.append("        def logic():")
+            for j in fidx:
+                body.append(f"            self.cb{j} <<= std.to_bits({self.cb_expr(T, j)})")
+            body.append("            self.cbnull <<= std.to_bits(TYPE(Null))")
+            body.append("            self.cbfull <<= std.to_bits(TYPE(Full))")
             body.append("")
 
         # constants inside a synthesisable context
